@@ -516,6 +516,12 @@ func (this *EXECodec) forwardARM(src, dst []byte, codeStart, codeEnd int) (uint,
 		return 0, 0, fmt.Errorf("ExeCodec forward failed: Input is not a supported executable format")
 	}
 
+	if codeStart&3 != 0 {
+		// Absolute targets are stored divided by 4: with instructions that do not
+		// sit on 4-byte boundaries of the block the two low bits would be lost
+		return 0, 0, errors.New("ExeCodec forward transform skip: code section is not 4-byte aligned")
+	}
+
 	if codeStart > 0 {
 		copy(dst[dstIdx:], src[0:codeStart])
 		dstIdx += codeStart
